@@ -144,11 +144,37 @@ def r07_2(ctx) -> None:
             for x in alts(A):
                 if x[0] == "B64J":
                     inner = show(x[1])
-                    if not ("protected" in inner or "headers" in inner):
+                    # (a compact object's headers() IS its protected header; a JSON member's headers() also holds the unprotected members, which are not signed)
+                    in_json = fn.module.short.endswith("json")
+                    if not ("protected" in inner or ("headers" in inner and not in_json)):
                         ok = False
                         why = f"the encoded header is {inner}"
         ctx.check(ok, "R07.2", fn, s.node, f"{fn.short} :: signing input", f"signing input is not ASCII(BASE64URL(UTF8(protected header)) '.' BASE64URL(payload)) (payload unencoded only under b64:false): {why}",
                   show(t), construct=f"signing input term in {fn.short}")
+
+
+def r07_18(ctx) -> None:
+    """R07.18  "tokens signed by that independent implementation ... verify": in the JSON serializations `alg` may stand in the UNPROTECTED header of a
+    signature (RFC 7515 7.2.1), so the JSON readers must not demand it of the protected header.  Who-may-call: `rfc7515.compact:decode_header` - the
+    decoder that raises MissingAlgorithmError when the decoded protected header has no `alg` - is reached from the compact readers only."""
+    eng = ctx.eng
+    P = eng.prog
+    dh = P.func("rfc7515.compact:decode_header")
+    callers = [s for s in eng.cg.callers.get(dh, []) if isinstance(s.node, ast.Call)]
+    ctx.count("R07.18", len(callers), 2, "decode_header call sites")
+    for s in callers:
+        ok = s.fn.module.short.endswith("compact")
+        ctx.check(ok, "R07.18", s.fn, s.node, f"{s.fn.short} :: {norm(s.node)[:40]}", f"{s.fn.short} decodes a protected header with the compact decoder, which demands `alg` in it: a JSON signature "
+                  "that carries `alg` in its unprotected header is refused", "json_b64decode + dict check in the JSON readers", construct=f"compact header decoder used in {s.fn.short}")
+    # ... and the JSON readers raise no missing-algorithm error of their own before the merged header is judged
+    for short in ("rfc7515.json:extract_general_json", "rfc7515.json:extract_flattened_json", "rfc7515.json:__signature_to_member", "rfc7797.json:_extract_json"):
+        try:
+            fn = P.func(short)
+        except Exception:
+            continue
+        bad = [n for n in fn_nodes(fn) if isinstance(n, ast.Raise) and n.exc is not None and "MissingAlgorithmError" in norm(n.exc)]
+        ctx.check(not bad, "R07.18", fn, bad[0] if bad else fn.node, f"{fn.short} :: no alg demand", f"{fn.short} raises MissingAlgorithmError while reading a member: `alg` may be in the unprotected header",
+                  "the merged header is judged by check_header", construct=f"missing-alg raise in {fn.short}")
 
 
 def r07_5(ctx) -> None:
@@ -347,12 +373,15 @@ def run(ctx) -> None:
     ctx.guard_as("R07.13", _r03_6)
     from .c15 import r15_2 as _r15_2
     ctx.guard_as("R07.14", _r15_2, "jws")  # RFC 7797 tokens of another implementation: "b64" needs to be IN crit, crit may list more
+    from .c11 import r11_9 as _r11_9
+    ctx.guard_as("R07.17", _r11_9)  # "given only the exported public JWK": a published key with `use: sig, key_ops: [verify]` is importable
     from .common import member_crossing
     ctx.guard(member_crossing, "R07.15", "jws")  # "yield the same payload and header": each named member of a parsed token is filled from the member of that name, under a test of its own presence
     from .c20 import r20_1 as _r20_1
     from ..effects import Effects as _Fx
     from .common import in_family as _inf
     ctx.guard_as("R07.16", _r20_1, _Fx(ctx.eng.prog, ctx.eng.cg), {f for f in ctx.eng.prog.all_functions() if _inf(f, "jws")})  # the signing input that is verified is this token's own segments (no class-level containers)
+    ctx.guard(r07_18)
     ctx.guard(r07_10)
     ctx.guard(r07_11)
     ctx.guard(r07_12)
